@@ -9,7 +9,7 @@ LEVEL = "model_checking"
 
 def run(tier):
     rep = common.Report("C19", tier, LEVEL)
-    _common.model_checks(rep, [("MC_TiccLoop", "MC_TiccLoop_limits.cfg")])
+    _common.model_checks(rep, list(_common.TICC_MODELS[tier]))
     rng = random.Random(common.seed() * 16807 + 19)
     # (1) the labelling step: cost tables and vector switching costs, writable and read-only, C and F order
     cases = c01.gen_cases(rng, 150 if tier == "quick" else 2000)
